@@ -32,6 +32,8 @@ FUNCS = {
     "crypto_pwhash/argon2/argon2.c": ["argon2_ctx"],
     "crypto_pwhash/scryptsalsa208sha256/crypto_scrypt-common.c": ["crypto_pwhash_scryptsalsa208sha256_ll"],
     "crypto_onetimeauth/poly1305/donna/poly1305_donna64.h": ["poly1305_init", "poly1305_blocks", "poly1305_finish"],
+    "crypto_onetimeauth/poly1305/donna/poly1305_donna32.h": ["poly1305_init", "poly1305_blocks", "poly1305_finish"],
+    "include/sodium/private/common.h": ["load64_le", "store64_le", "load32_le", "store32_le", "load64_be", "store64_be", "load32_be", "store32_be"],
     "crypto_scalarmult/curve25519/sandy2x/curve25519_sandy2x.c": ["crypto_scalarmult_curve25519_sandy2x"],
     "crypto_scalarmult/curve25519/ref10/x25519_ref10.c": ["crypto_scalarmult_curve25519_ref10", "has_small_order"],
 }
@@ -93,7 +95,7 @@ def changed(repo, prop=None):
     res = []
     for k, v in pins.items():
         fn = k.split(":")[1]
-        owner = fn[1:] if fn.startswith("*") else ("C10" if "fe_25_5" in k else next((o for pre, o in OWNER.items() if fn.startswith(pre)), None))
+        owner = fn[1:] if fn.startswith("*") else ("C10" if ("fe_25_5" in k or "donna32" in k or "private/common.h" in k) else next((o for pre, o in OWNER.items() if fn.startswith(pre)), None))
         if prop and owner not in prop.split(","):
             continue
         if cur.get(k) != v:
